@@ -76,9 +76,11 @@ func (tfo *tagFilterOp) Eq(tagName string, tagValue string) bool {
 		return true // Conservative approach - don't filter out
 	}
 
-	// Use filter to check if the value might exist
+	// Use filter to check if the value might exist.
+	// ContainsAll, not MightContain: for an array tag the probe is one element and a
+	// dictionary filter stores whole (serialized) arrays, which MightContain never matches.
 	if cache.filter != nil {
-		return cache.filter.MightContain([]byte(tagValue))
+		return cache.filter.ContainsAll([][]byte{[]byte(tagValue)})
 	}
 
 	// If no filter, conservatively return true
